@@ -525,6 +525,11 @@ func findMethodByFunctionCallPathRecursively(root interface{}, functionCallPath 
 		if !field.IsValid() {
 			return reflect.Value{}, ErrCannotCallNonFunction
 		}
+
+		// Only exported fields are part of the exposed API, this also applies to the names of embedded structs
+		if !field.CanInterface() {
+			return reflect.Value{}, ErrCannotCallNonFunction
+		}
 	}
 
 	function = field.MethodByName(functionCallPathParts[len(functionCallPathParts)-1])
